@@ -354,3 +354,108 @@ Example C06_example_messages_generated :
              (callReq_read (mk_callReq 7 0 (mk_Span 0 0 0 0) [] []) (mk_ReadBuffer (Some (bytes ++ [9])) 0))
     = Some (0, absCallReq m, rb [9]).
 Proof. cbv zeta. split; [vm_compute; reflexivity|]. split; vm_compute; reflexivity. Qed.
+
+(* ======================================================================================
+   "Frame headers carry the exact ... type and id" for the messages the library sends IN ANSWER
+   to a frame: the header of a response carries the id of the request and the type the protocol
+   document pairs with it -- init req -> init res, ping req -> ping res, call req -> call res
+   (+ call res continue) or error, handshake refusals -> error -- for every id.
+
+   Vocabulary.  Spec/ReplyHdr.v (literals only): s_answer_init / s_answer_ping / s_answer_call /
+   s_answer_error id = the (type, id) headers of the answer; s_replyhdr = a scripted connection.
+   Model/MsgRun.v: reply_init / reply_init_refused / reply_ping / reply_call / reply_error (one
+   function per kind of request, generated type codes), run_replyhdr / run_replyhdr_out = the
+   entry points replayed against the implementation by engine "msgreply".
+   Proofs/ReplyHdrP.v code_*: the id hand-over chains of the Go code, assembled from definitions
+   REGENERATED from the source on every run -- Gen/GenReplySites.v: for each function that builds
+   an answer, the list of the id expressions at ALL its sites of one kind (argument of
+   getInitMessage / initError / SendSystemError / protocolError / newExchange, key id of pingRes /
+   errorMessage / initMessage / cancelMessage literals, key msgID of the exchange, assignments to
+   frame.Header.ID / .messageType, index of the exchange map), local variables resolved to their
+   definitions; Gen/GenReplyIds.v: ID() and messageType() of every message struct, the header
+   assignments of Frame.write, the id readMessage returns, outboundHandshake's id test.
+   ctl_hdr t i = the header Frame.write produces for a message reporting type t and id i.
+   ====================================================================================== *)
+From Verif Require Import Gen.GenReplyIds Gen.GenReplySites Model.MsgRun Spec.ReplyHdr Proofs.ReplySpecP Proofs.ReplyHdrP.
+
+(* the reply-header model is the protocol document's pairing, for every script and every id *)
+Theorem C06_reply_spec : forall c, run_replyhdr c = s_replyhdr c.
+Proof. exact run_replyhdr_spec. Qed.
+Theorem C06_reply_out_spec : forall c, run_replyhdr_out c = s_replyhdr_out 1 c.
+Proof. exact run_replyhdr_out_spec. Qed.
+(* every header of every answer carries the id of its request *)
+Theorem C06_reply_ids : forall id frag,
+  Forall (fun h => snd h = id)
+         (reply_init id ++ reply_init_refused id ++ reply_ping id ++ reply_call frag id ++ reply_error id).
+Proof. exact reply_ids_are_the_requests. Qed.
+
+(* the code's hand-over chains, regenerated from the source, ARE the model's reply headers: for
+   the frame id fid read from the request, whatever the other inputs of the functions on the way
+   (mm / ie = readMessage's type tests), the init res, the handshake's error frame, the ping res,
+   the protocol error of a ping on a closed connection, both refusals of a call req on a closing
+   connection, the duplicate-id protocol error, a handler's system error, the first and every
+   further response fragment, the id of the decoded call req and the exchange a cancel frame
+   cancels all carry exactly fid (and the specified type) *)
+Theorem C06_reply_headers_generated :
+  (forall mm ie fid, code_reply_init mm ie fid = map Some (reply_init fid)) /\
+  (forall mm ie fid, code_reply_init_refused mm ie fid = map Some (reply_init_refused fid)) /\
+  (forall fid, code_reply_ping fid = map Some (reply_ping fid)) /\
+  (forall fid, code_ping_proto fid = map Some (reply_error fid)) /\
+  (forall fid, code_callreq_refusals fid = map Some (reply_error fid ++ reply_error fid)) /\
+  (forall fid, code_callreq_proto fid = map Some (reply_error fid)) /\
+  (forall fid, code_handler_error fid = map Some (reply_error fid)) /\
+  (forall (frag : bool) fid, code_fragment true fid ++ (if frag then code_fragment false fid else []) = reply_call frag fid) /\
+  (forall fid, map callReq_ID (callReqMsgIds fid) = [fid]) /\
+  (forall fid, cancelLookupIds fid = [fid]).
+Proof. exact reply_headers_generated. Qed.
+
+(* the connecting side: the init req carries out_init_id (= 1), a refused init res is answered
+   with an error frame of that id, an init res is accepted exactly when it carries that id, and
+   the cancel frame sent for a call carries the id of the call's exchange *)
+Theorem C06_out_headers_generated :
+  code_out_init_req = [Some (c_messageTypeInitReq, out_init_id)] /\
+  code_out_init_err = [Some (c_messageTypeError, out_init_id)] /\
+  (forall id, map (outboundInitResAccept id) (flat_map getInitMessageIds outboundInitReqIds) = [out_accepts id]) /\
+  (forall id, out_accepts id = true <-> id = out_init_id) /\
+  (forall mex_id, code_cancel_sent mex_id = [Some (c_messageTypeCancel, mex_id)]).
+Proof. exact out_headers_generated. Qed.
+
+(* messageType() of every message struct = the code of the protocol document; Frame.write copies
+   the message's id and type into the header unchanged; readMessage hands the handshake the id of
+   the frame it read (0 only when no frame could be read) *)
+Theorem C06_message_types_generated :
+  [initReq_messageType; initRes_messageType; callReq_messageType; callRes_messageType;
+   callReqContinue_messageType; callResContinue_messageType; cancelMessage_messageType;
+   pingReq_messageType; pingRes_messageType; errorMessage_messageType]
+  = [1; 2; 3; 4; 19; 20; 192; 208; 209; 255].
+Proof. exact message_types_ok. Qed.
+Theorem C06_frame_write_header : forall failed t i,
+  frameWriteType failed t = (if failed then None else Some t) /\ frameWriteId failed i = (if failed then None else Some i).
+Proof. exact frame_write_hdr. Qed.
+Theorem C06_read_message_id : forall rf mm ie fid, readMessageId rf mm ie fid = if rf then 0 else fid.
+Proof. exact read_message_id. Qed.
+
+(* no other place of the package writes a header id / type, sends an error frame or builds an
+   id-carrying message: every such site (table regenerated from the source) is in a function of
+   the chains above -- whose site lists are complete (counts agree) --, in a function that only
+   decodes a received frame or originates a request, or in relay.go *)
+Theorem C06_reply_sites_closed :
+  forallb rid_row_ok reply_id_table = true /\
+  forallb (fun e : String.string * Z * nat => let '(fn, kind, n) := e in Nat.eqb (rid_count fn kind) n) rid_expected = true.
+Proof. exact reply_id_table_covered. Qed.
+
+Print Assumptions C06_reply_spec.
+Print Assumptions C06_reply_sites_closed.
+Print Assumptions C06_reply_headers_generated.
+Print Assumptions C06_out_headers_generated.
+Print Assumptions C06_read_message_id.
+
+(* non-vacuity: a connection opened with init req id 0xFFFFFFFE, a ping with id 0, a fragmented
+   answer to call 0x01000000, two calls 7 and 2 answered in reverse order *)
+Example C06_example_reply :
+  run_replyhdr [0; 4294967294;  0; 0; 0;  2; 16777216; 0;  4; 7; 2]
+  = [2; 4294967294;  209; 0;  4; 16777216; 20; 16777216;  4; 2; 4; 7] /\
+  run_replyhdr [1; 7] = [255; 7] /\
+  run_replyhdr_out [0; 2] = [1; 1; 1; 192; 2] /\ run_replyhdr_out [4294967295; 0] = [1; 1; 0; 255; 1] /\
+  code_reply_init false false 4294967294 = [Some (2, 4294967294)].
+Proof. repeat split; vm_compute; reflexivity. Qed.
